@@ -289,6 +289,8 @@ def run(check: core.Check) -> None:
     # same dimension character by character (token level)
     job("format:fieldnames", "StrFieldsEmit", "StrFields.names.cfg", workers=4)
     job("format:names", "StrFormatEmit", "StrFormat.names.cfg", workers=4)
+    if not quick:  # every edge form (also 2**63-1, 2**63, +1, mixed Unicode digits) x accessor x conversion x spec
+        job("format:fieldnames2", "StrFieldsEmit", "StrFields.names2.cfg", workers=8)
     # keyed specifiers x dicts of up to two entries (both spellings of a key, second key, keyed + unkeyed)
     job("percent:fieldkeys", "PercentFieldsEmit", "PercentFields.keys2.cfg", workers=2)
     # every conversion character x every length modifier x every argument class
@@ -385,7 +387,8 @@ def run(check: core.Check) -> None:
             [("percent:fieldkeys", 20000), ("percent:fieldconvs", 20000)] if which == "percent"
             else [("format:fieldnames", 20000)]
         ) + (
-            [] if quick else [(f"{which}:fields22", 40000)] + ([("format:fieldsfull", 40000)] if which == "format" else [])
+            [] if quick else [(f"{which}:fields22", 40000)]
+            + ([("format:fieldsfull", 40000), ("format:fieldnames2", 40000)] if which == "format" else [])
         ):
             got = core.emitted_json(results[src])
             results[src].stdout = ""
